@@ -45,6 +45,9 @@ def ideallat(seed, n):
 def cadence(seed, n):
     return _mk("cadence", "hc", gen_hc.cadence_case, n, seed * 101 + 20)
 
+def rttstep(seed, n):
+    return _mk("rttstep", "hc", gen_hc.rttstep_case, n, seed * 101 + 22)
+
 def hostile(seed, n):
     return _mk("hostile", "hc", lambda r: gen_hc.hoard_case(r) if r.random() < 0.12 else gen_hc.hostile_case(r), n, seed * 101 + 6)
 
